@@ -30,6 +30,27 @@ def run(ctx):
     ctx.rule('R10.7', 'record order: dependents are journaled as aborted before the failure of their dependency; aborted/canceled tasks without a start record are replayed as terminal')
     shared_rules.abort_before_fail(ctx, 'R10.7')
     shared_rules.replay_records_missing_entry(ctx, 'R10.7')
+    ctx.rule('R10.8', 'emit discipline: JobClose is journaled only when an OPEN job is closed (a JobClose after JobCompleted cannot be replayed: the job record is gone)')
+    jc = prog.body(JOB + 'close')
+    evc = jc.call_blocks(STREAMER + 'on_job_closed')
+    owners_ = set(o for o, b, bi in call_sites(prog, STREAMER + 'on_job_closed') if not is_test_util(o))
+    ctx.ob('R10.8', 'on_job_closed|emitter', owners_ == {JOB + 'close'}, f'JobClose is emitted only by Job::close (observed {sorted(owners_)})', None)
+    e_in, _ = guard_edges(jc, JOB + 'is_open', True)
+    inner = bool(evc) and bool(e_in) and all(dominated_by_edges(jc, x, e_in, False) for x in evc)
+    # or a plain read of the is_open field guarding the emission
+    if not inner and evc:
+        for x in jc.reachable():
+            si_ = jc.switch_info(x)
+            if si_ and si_['kind'] == 'bool' and 'is_open' in local_field_sources(jc, si_['local']) and jc.dominates(x, evc[0]) and evc[0] in jc.reach_from([si_['true_succ']]) and evc[0] not in jc.reach_from([si_['false_succ']], avoid=[x]):
+                inner = True
+    outer = True
+    for o, b, bi in call_sites(prog, JOB + 'close'):
+        if is_test_util(o):
+            continue
+        e_o, _ = guard_edges(b, JOB + 'is_open', True)
+        if not (e_o and dominated_by_edges(b, bi, e_o)):
+            outer = False
+    ctx.ob('R10.8', 'JobClose only for an open job', inner or outer, 'the JobClose event is emitted under is_open()==true (inside Job::close or at every call site)', jc.loc(evc[0]) if evc else jc.loc())
     lef = prog.body(LEF)
     # ---- R10.1
     ws = job_table.job_state_writes(prog)
